@@ -439,6 +439,7 @@ class World:
                 elif k == "setcallback":
                     c = ch(op[1])
                     cid = c.id
+                    none_end = len(op) > 2 and op[2] == "none"   # endmarker=None: a falsy endmarker is an endmarker all the same
                     want_end = bool(op[2]) if len(op) > 2 else False
                     boom_at = op[3] if len(op) > 3 else None
                     boom_exc = {"key": KeyError, "lookup": LookupError, "os": OSError, "eof": EOFError}.get(op[4] if len(op) > 4 else "", RuntimeError)
@@ -446,8 +447,8 @@ class World:
                     closeself = len(op) > 4 and op[4] == "closeself"
                     holder = [c] if closeself else []
 
-                    def cb(item, cid=cid, side=side, boom_at=boom_at, boom_exc=boom_exc):
-                        tok = ENDMARK_TOKEN if item == "ENDMARK" and isinstance(item, str) else self.tok_of(item)
+                    def cb(item, cid=cid, side=side, boom_at=boom_at, boom_exc=boom_exc, none_end=none_end):
+                        tok = ENDMARK_TOKEN if (item is None and none_end) or (item == "ENDMARK" and isinstance(item, str)) else self.tok_of(item)
                         self.ev("cb", side, "", cid, tok, flag=(boom_at is not None and tok == boom_at and not closeself))
                         if closeself and tok == boom_at and holder:
                             # the callback closes its own channel while it is being fed (e.g. "got the last item")
@@ -463,7 +464,9 @@ class World:
                     me = s.me().name
                     self.draining.add(me)
                     try:
-                        if want_end:
+                        if none_end:
+                            c.setcallback(cb, endmarker=None)
+                        elif want_end:
                             c.setcallback(cb, endmarker="ENDMARK")
                         else:
                             c.setcallback(cb)
